@@ -606,6 +606,19 @@ func run(s *core.Shard) {
 			n = k
 		}
 	}
+	for i := 0; i < 6; i++ {
+		if !s.Mine(n + 152 + i) {
+			continue
+		}
+		if !s.Begin(fmt.Sprintf("repeated-entry/%d", i)) {
+			continue
+		}
+		c := repeated(i)
+		if judge(s, c) {
+			s.Cover("placement", c.Shape)
+			s.Nontrivial(c.Ext.Key())
+		}
+	}
 	for i := 0; i < 12; i++ {
 		if !s.Mine(n + 140 + i) {
 			continue
